@@ -509,7 +509,7 @@ func c21RunLossy(lc *c21LossyCase, viol vlpViolFunc) *c21LossyResult {
 	}
 	conns := [2]*Conn{p.Cli, p.Srv}
 
-	var wg sync.WaitGroup
+	var wg verifrt.WG
 	var pending atomic.Int64
 	var opened, accepted [2][2]atomic.Int64
 	var openedAfter atomic.Int64
